@@ -169,6 +169,14 @@ void h_load(void)
   /* a kernel symbol table lists each __ksymtab_<name> / __crc_<name> entry once */
   for (int i = 0; i < NSYM; i++) for (int j = 0; j < i; j++) __CPROVER_assume(!(namesel[i] >= 4 && namesel[i] == namesel[j]));
 #endif
+#ifdef KSYM_FOCUS
+  /* the __ksymtab_ interplay needs two entries: everything the ksymtab marking does not depend on is concrete */
+  __CPROVER_assume(is_kernel && have_scn && have_data && sh_entsize == 24);
+  for (int i = 0; i < NSYM; i++) {
+    __CPROVER_assume((namesel[i] == 2 || namesel[i] == 4) && !getsym_fails[i]);
+    sy[i].f4 = 0; sy[i].f5 = 8;
+  }
+#endif
 #ifdef DBG_PATH
   if (DBG_PATH == 1) __CPROVER_assume(!have_scn);
   if (DBG_PATH == 2) __CPROVER_assume(nsyms == 0);
